@@ -212,7 +212,10 @@ let mon_c20 (case : string list) (result : string) : string =
     let obs = split_counts counts flat in
     if b20_chk t0 h obs then "PASS"
     else begin
-      let tags = (if b20_chk_cache t0 h obs then [] else [ "unneeded" ])
+      let excess = b20_excess t0 h in
+      (* a cache counter above the need-run is the registered class only if the model of the
+         code did store a record nobody needed (b_excess > 0) *)
+      let tags = (if b20_chk_cache t0 h obs then [] else [ (if excess = N0 then "cache-unexplained" else "unneeded") ])
                  @ (if b20_chk_sub t0 h obs then [] else [ "subtype" ])
                  @ (if b20_chk_timers t0 h obs then [] else [ "timers" ]) in
       (* first sample that breaks an allowance: observed numbers, need-run numbers, allowances *)
@@ -225,7 +228,7 @@ let mon_c20 (case : string list) (result : string) : string =
           else Printf.sprintf "at %s observed %s need-run %s allowed subtype<=%s timer<=%s" (dec_of_n t)
               (string_of_sample t o) (string_of_sample t n) (dec_of_n n.m_sub_live) (dec_of_n n.m_timer_allow)
         | _ -> "?" in
-      let detail = first needs flat times in
+      let detail = first needs flat times ^ " unneeded-records-stored=" ^ dec_of_n excess in
       if b20_predicted t0 h obs then Printf.sprintf "FAIL[%s] %s" (String.concat "," tags) detail
       else Printf.sprintf "FAIL unexplained (%s) %s" (String.concat "," tags) detail
     end
